@@ -240,12 +240,14 @@ func (n *Namer) Name(rel string) string {
 		return "IT"
 	case strings.HasPrefix(rel, "oci-layout") && !strings.Contains(rel, "/"):
 		return "LT"
-	case rel == "blobs" || rel == "blobs/sha256" || rel == "blobs/sha512" || rel == "ingest":
+	case rel == "blobs" || rel == "blobs/sha256" || rel == "blobs/sha512" || rel == "blobs/sha384" || rel == "ingest":
 		return rel
-	case strings.HasPrefix(rel, "blobs/sha256/") || strings.HasPrefix(rel, "blobs/sha512/"):
-		// the hex strings of the two algorithms differ in length, so one table serves both;
+	case strings.HasPrefix(rel, "blobs/sha256/") || strings.HasPrefix(rel, "blobs/sha512/") || strings.HasPrefix(rel, "blobs/sha384/"):
+		// the hex strings of the algorithms differ in length, so one table serves all;
 		// a blob filed under the wrong algorithm directory is not recognised
-		if id, ok := n.ByHex[rel[len("blobs/sha256/"):]]; ok && (len(rel)-len("blobs/sha256/") == 128) == strings.HasPrefix(rel, "blobs/sha512/") {
+		want := map[string]int{"sha256": 64, "sha384": 96, "sha512": 128}[rel[len("blobs/"):len("blobs/sha256")]]
+		hexName := rel[len("blobs/sha256/"):]
+		if id, ok := n.ByHex[hexName]; ok && len(hexName) == want {
 			return "B" + strconv.Itoa(id)
 		}
 	case strings.HasPrefix(rel, "ingest/"):
